@@ -296,13 +296,14 @@ def compute_mask_sessions(session_images, m=0.2, M=0.9, cc=1, threshold=0.5,
     mask, mean = None, None
     for session in session_images:
         if hasattr(session, 'get_fdata'):
-            mean = session.get_fdata()
-            if mean.ndim > 3:
-                mean = mean.mean(-1)
-            this_mask = compute_mask(mean, None, m=m, M=M, cc=cc,
+            # Not `mean`: that name accumulates the mean over sessions below
+            session_mean = session.get_fdata()
+            if session_mean.ndim > 3:
+                session_mean = session_mean.mean(-1)
+            this_mask = compute_mask(session_mean, None, m=m, M=M, cc=cc,
                         opening=opening, exclude_zeros=exclude_zeros)
             if return_mean:
-                this_mask = this_mask, mean
+                this_mask = this_mask, session_mean
         else:
             this_mask = compute_mask_files(
                 session, m=m, M=M, cc=cc, exclude_zeros=exclude_zeros,
@@ -313,7 +314,8 @@ def compute_mask_sessions(session_images, m=0.2, M=0.9, cc=1, threshold=0.5,
                 mean = this_mean.astype(np.float64)
             else:
                 mean += this_mean
-        this_mask = this_mask.astype(np.int8)
+        # Count in a wide integer type: int8 wraps from 128 sessions on
+        this_mask = this_mask.astype(np.int_)
         if mask is None:
             mask = this_mask
         else:
@@ -322,7 +324,9 @@ def compute_mask_sessions(session_images, m=0.2, M=0.9, cc=1, threshold=0.5,
         del this_mask
 
     # Take the "half-intersection", i.e. all the voxels that fall within
-    # 50% of the individual masks.
+    # 50% of the individual masks.  As in intersect_masks, threshold=1 keeps
+    # the voxels that are in all the masks.
+    threshold = min(threshold, 1 - 1.e-7)
     mask = (mask > threshold * len(list(session_images)))
 
     if cc:
